@@ -111,11 +111,15 @@ Create HintDb gooddb discriminated.
 
 Section ExprGood.
   Variable E : env.
-  Notation goodX := (good (pT E) False True).
-  Notation glt := (good_lt (pT E) False True).
+  Variable allowS : Prop.     (* is StackOverflow tolerated?  If not, the nesting must fit: see [fits] *)
+  Notation goodX := (good (pT E) False allowS).
+  Notation glt := (good_lt (pT E) False allowS).
+  (** either overflow is tolerated, or [depth] plus the remaining fuel (= an upper bound of the levels
+      still to come) stays within the stack *)
+  Definition fits (depth : Z) (fuel : nat) : Prop := allowS \/ depth + Z.of_nat fuel <= stack_limit E + 1.
 
   Lemma strict_read_string' : strict read_string.
-  Proof. apply (strict_read_string (pT E) False True). Qed.
+  Proof. apply (strict_read_string (pT E) False allowS). Qed.
 
   Lemma glt_of F {A} (m : dec A) : goodX m -> glt F m.
   Proof. apply good_lt_of_good. Qed.
@@ -137,21 +141,24 @@ Section ExprGood.
   Qed.
   Lemma slt_counted F {A} (item : dec A) : glt F item -> strict_lt F item -> strict_lt F (n <- read_u32 ;; skip (loop n item)).
   Proof.
-    intros G S0. apply (strict_lt_bind_l (pT E) False True).
+    intros G S0. apply (strict_lt_bind_l (pT E) False allowS).
     - apply glt_of, good_read_u32.
-    - apply strict_lt_of_strict, (strict_read_u32 (pT E) False True).
+    - apply strict_lt_of_strict, (strict_read_u32 (pT E) False allowS).
     - intros n. apply glt_skip, good_lt_loop; assumption.
   Qed.
   Lemma slt_seq_l F {A B} (m : dec A) (k : dec B) : glt F m -> strict_lt F m -> glt F k -> strict_lt F (m ;;; k).
-  Proof. intros G1 S1 G2. apply (strict_lt_bind_l (pT E) False True); auto. Qed.
+  Proof. intros G1 S1 G2. apply (strict_lt_bind_l (pT E) False allowS); auto. Qed.
 
   Lemma good_strict_read_expr fuel :
-    forall depth, glt (Z.of_nat fuel) (read_expr E fuel depth) /\ strict_lt (Z.of_nat fuel) (read_expr E fuel depth).
+    forall depth, fits depth fuel ->
+      glt (Z.of_nat fuel) (read_expr E fuel depth) /\ strict_lt (Z.of_nat fuel) (read_expr E fuel depth).
   Proof.
-    induction fuel as [|f IH]; intros depth.
+    induction fuel as [|f IH]; intros depth Hfit.
     - split; intros bs Hb; pose proof (blen_nonneg bs); change (Z.of_nat 0) with 0 in Hb; lia.
     - cbn [read_expr].
-      destruct (IH (depth + 1)) as [Gs Ss].
+      assert (Hfit' : fits (depth + 1) f) by (destruct Hfit as [Ha|Hd]; [left; exact Ha | right; lia]).
+      assert (Hso : stack_limit E < depth -> allowS) by (intros Hlt; destruct Hfit as [Ha|Hd]; [exact Ha | lia]).
+      destruct (IH (depth + 1) Hfit') as [Gs Ss].
       set (sub := read_expr E f (depth + 1)) in *.
       set (F := Z.of_nat f) in *.
       assert (Gsubs : glt F (n <- read_u32 ;; skip (loop n sub))) by (apply glt_counted; assumption).
@@ -233,27 +240,30 @@ Section ExprGood.
                      | match goal with |- good_lt _ _ _ _ (match ?x with _ => _ end) => destruct x end
                      | (apply glt_bind; [|intros ?]) ]. }
       assert (Hr : forall bs t tag r, blen bs < Z.of_nat (S f) -> read_u8 bs = (t, Ok tag r) -> blen r < F).
-      { intros bs t tag r Hb Er. pose proof (strict_read_u8 (pT E) False True _ _ _ _ Er). unfold F. lia. }
+      { intros bs t tag r Hb Er. pose proof (strict_read_u8 (pT E) False allowS _ _ _ _ Er). unfold F. lia. }
       split.
-      + intros bs Hb. destruct (stack_limit E <? depth).
-        * apply good_stop; [reflexivity | exact I].
+      + intros bs Hb. destruct (Z.ltb_spec (stack_limit E) depth) as [Hlt|Hge].
+        * apply good_stop; [reflexivity | exact (Hso Hlt)].
         * apply good_at_bind; [apply good_read_u8|]. intros t tag r Er. apply Gbody. eapply Hr; eauto.
       + intros bs Hb. destruct (stack_limit E <? depth); [apply strict_stop; reflexivity|].
         intros t a rest.
         destruct (read_u8 bs) as [t1 o1] eqn:Er. rewrite (bind_run _ _ _ _ _ Er).
         destruct o1 as [tag r| | | | | |]; [| intros H; inversion H ..].
         pose proof (Hr _ _ _ _ Hb Er) as Hlt.
-        pose proof (strict_read_u8 (pT E) False True _ _ _ _ Er) as Hs.
+        pose proof (strict_read_u8 (pT E) False allowS _ _ _ _ Er) as Hs.
         match goal with |- (let '(t2, o) := ?body r in _) = _ -> _ => destruct (body r) as [t2 o2] eqn:Eb end.
         intros [= <- ->].
         pose proof (g_consumes _ _ _ _ _ (Gbody tag r Hlt) _ _ _ Eb). lia.
   Qed.
 
-  Lemma good_read_expression : goodX (read_expression E).
+  (** on inputs shorter than [F]: fine when overflow is tolerated or the stack holds [F] levels *)
+  Lemma good_read_expression F : allowS \/ F <= stack_limit E -> glt F (read_expression E).
   Proof.
-    intros bs. unfold read_expression.
+    intros HF bs Hb. unfold read_expression.
     assert (Hlt : blen bs < Z.of_nat (S (length bs))) by (unfold blen; lia).
-    destruct (proj1 (good_strict_read_expr (S (length bs)) 1) bs Hlt) as [h1 h2 h3 h4]. split; assumption.
+    assert (Hfit : fits 1 (S (length bs))).
+    { destruct HF as [Ha|Hd]; [left; exact Ha | right; unfold blen in *; lia]. }
+    destruct (proj1 (good_strict_read_expr (S (length bs)) 1 Hfit) bs Hlt) as [h1 h2 h3 h4]. split; assumption.
   Qed.
 End ExprGood.
 
@@ -290,8 +300,13 @@ Qed.
 
 Section FileGood.
   Variable E : env.
-  Notation goodC := (good (pT E) False True).
-  Let sbl {A B} := @strict_bind_l (pT E) False True A B.
+  Variable allowS : Prop.
+  Notation goodC := (good (pT E) False allowS).
+  Notation gltC := (good_lt (pT E) False allowS).
+  Let sbl {A B} := @strict_bind_l (pT E) False allowS A B.
+  (** the catalog decoders containing [read_expression] are stated on inputs shorter than [F] under [okF] *)
+  Variable F : Z.
+  Hypothesis okF : allowS \/ F <= stack_limit E.
 
   Lemma good_read_column : goodC read_column /\ strict read_column.
   Proof.
@@ -300,7 +315,7 @@ Section FileGood.
       apply good_bind; [apply good_read_string|]. intros ts.
       apply good_bind; [apply good_read_bool|]. intros nl.
       destruct (parse_data_type ts); auto with gooddb.
-    - apply sbl; [apply (strict_read_string (pT E) False True)|]. intros n.
+    - apply sbl; [apply (strict_read_string (pT E) False allowS)|]. intros n.
       apply good_bind; [apply good_read_string|]. intros ts.
       apply good_bind; [apply good_read_bool|]. intros nl.
       destruct (parse_data_type ts); auto with gooddb.
@@ -312,7 +327,7 @@ Section FileGood.
     - apply good_bind; [apply good_read_string|]. intros n.
       apply good_bind; [apply good_read_u32|]. intros cc.
       apply good_bind; [apply good_loop; assumption|]. intros; apply good_ret.
-    - apply sbl; [apply (strict_read_string (pT E) False True)|]. intros n.
+    - apply sbl; [apply (strict_read_string (pT E) False allowS)|]. intros n.
       apply good_bind; [apply good_read_u32|]. intros cc.
       apply good_bind; [apply good_loop; assumption|]. intros; apply good_ret.
   Qed.
@@ -326,7 +341,7 @@ Section FileGood.
     split.
     - apply good_bind; [apply good_read_string|]. intros c.
       apply good_bind; [apply good_read_u8|]. intros dirb. destruct (existsb _ _); auto with gooddb.
-    - apply sbl; [apply (strict_read_string (pT E) False True)|]. intros c.
+    - apply sbl; [apply (strict_read_string (pT E) False allowS)|]. intros c.
       apply good_bind; [apply good_read_u8|]. intros dirb. destruct (existsb _ _); auto with gooddb.
   Qed.
 
@@ -338,7 +353,7 @@ Section FileGood.
       apply good_bind; [apply good_read_bool|]. intros u.
       apply good_bind; [apply good_read_u32|]. intros cc.
       apply good_bind; [apply good_loop; assumption|]. intros; apply good_ret.
-    - apply sbl; [apply (strict_read_string (pT E) False True)|]. intros n.
+    - apply sbl; [apply (strict_read_string (pT E) False allowS)|]. intros n.
       apply good_bind; [apply good_read_string|]. intros tn.
       apply good_bind; [apply good_read_bool|]. intros u.
       apply good_bind; [apply good_read_u32|]. intros cc.
@@ -353,12 +368,17 @@ Section FileGood.
   Proof.
     apply good_bind; [apply good_read_u8|]. intros ev.
     destruct (ev =? 3).
-    - apply good_counted; [apply good_read_string | apply (strict_read_string (pT E) False True)].
+    - apply good_counted; [apply good_read_string | apply (strict_read_string (pT E) False allowS)].
     - destruct (existsb _ _); auto with gooddb.
   Qed.
 
+  Lemma glt_seqC {A B} (m : dec A) (k : dec B) : gltC F m -> gltC F k -> gltC F (m ;;; k).
+  Proof. intros G1 G2. apply good_lt_bind; auto. Qed.
+  Lemma gofC {A} (m : dec A) : goodC m -> gltC F m.
+  Proof. apply good_lt_of_good. Qed.
+
   Lemma good_read_trigger_k (n : bytes) :
-    goodC (skip read_string ;;;
+    gltC F (skip read_string ;;;
            read_enum 1 bin_timing_tags ;;;
            (ev <- read_u8 ;;
             if ev =? 3 then (cn <- read_u32 ;; skip (loop cn read_string))
@@ -370,69 +390,61 @@ Section FileGood.
            skip read_string ;;;
            ret n).
   Proof.
-    apply good_seq; [apply good_skip, good_read_string|].
-    apply good_seq; [apply good_read_enum|].
-    apply good_seq; [apply good_trigger_event|].
-    apply good_seq; [apply good_read_enum|].
-    apply good_seq; [apply good_opt, good_read_expression|].
-    apply good_seq; [apply good_read_enum|].
-    apply good_seq; [apply good_skip, good_read_string|].
-    apply good_ret.
+    apply glt_seqC; [apply gofC, good_skip, good_read_string|].
+    apply glt_seqC; [apply gofC, good_read_enum|].
+    apply glt_seqC; [apply gofC, good_trigger_event|].
+    apply glt_seqC; [apply gofC, good_read_enum|].
+    apply glt_seqC; [apply glt_opt, good_read_expression; exact okF|].
+    apply glt_seqC; [apply gofC, good_read_enum|].
+    apply glt_seqC; [apply gofC, good_skip, good_read_string|].
+    apply gofC, good_ret.
   Qed.
 
-  Lemma good_read_trigger : goodC (read_trigger E) /\ strict (read_trigger E).
+  Lemma good_read_trigger : gltC F (read_trigger E) /\ strict_lt F (read_trigger E).
   Proof.
     unfold read_trigger. split.
-    - apply good_bind; [apply good_read_string|]. intros n. apply good_read_trigger_k.
-    - apply sbl; [apply (strict_read_string (pT E) False True)|]. intros n. apply good_read_trigger_k.
+    - apply good_lt_bind; [apply gofC, good_read_string|]. intros n. apply good_read_trigger_k.
+    - apply (strict_lt_bind_l (pT E) False allowS).
+      + apply gofC, good_read_string.
+      + apply strict_lt_of_strict, (strict_read_string (pT E) False allowS).
+      + intros n. apply good_read_trigger_k.
   Qed.
 
-  Lemma good_named_iter (what : Z) {A} (item : dec A) (key : A -> bytes) (guard : bytes -> bool) count :
-    goodC item -> strict item ->
-    goodC (iter count (fun l => x <- item ;;
-                                lift (if guard (key x) then Err (ECatalog what) else add_unique what l (key x))) []).
-  Proof.
-    intros Gi Si. apply good_iter.
-    - intros l. apply good_bind; [exact Gi|]. intros x. apply good_lift.
-      destruct (guard (key x)); [exact I | apply pure_add_unique].
-    - intros l. apply sbl; [exact Si|]. intros x. apply good_lift.
-      destruct (guard (key x)); [exact I | apply pure_add_unique].
-  Qed.
-
-  Lemma good_read_catalog : goodC (read_catalog E).
+  Lemma good_read_catalog : gltC F (read_catalog E).
   Proof.
     destruct good_read_table_schema as [Gt St]. destruct good_read_index_spec as [Gi Si].
     destruct good_read_trigger as [Gr Sr].
     unfold read_catalog.
-    apply good_bind; [apply good_read_u32|]. intros sc.
-    apply good_bind.
-    { apply good_iter.
+    apply good_lt_bind; [apply gofC, good_read_u32|]. intros sc.
+    apply good_lt_bind.
+    { apply gofC, good_iter.
       - intros l. apply good_bind; [apply good_read_string|]. intros n. apply good_lift.
         destruct (bytes_eqb n (lit "public")); [exact I | apply pure_add_unique].
-      - intros l. apply sbl; [apply (strict_read_string (pT E) False True)|]. intros n. apply good_lift.
+      - intros l. apply sbl; [apply (strict_read_string (pT E) False allowS)|]. intros n. apply good_lift.
         destruct (bytes_eqb n (lit "public")); [exact I | apply pure_add_unique]. }
     intros schemas.
-    apply good_bind; [apply good_read_u32|]. intros rc.
-    apply good_bind.
-    { apply good_iter.
+    apply good_lt_bind; [apply gofC, good_read_u32|]. intros rc.
+    apply good_lt_bind.
+    { apply gofC, good_iter.
       - intros l. apply good_bind; [apply good_read_string|]. intros n. apply good_lift, pure_add_unique.
-      - intros l. apply sbl; [apply (strict_read_string (pT E) False True)|]. intros n.
+      - intros l. apply sbl; [apply (strict_read_string (pT E) False allowS)|]. intros n.
         apply good_lift, pure_add_unique. }
     intros roles.
-    apply good_bind; [apply good_read_u32|]. intros tc.
-    apply good_bind; [apply good_loop; assumption|]. intros tschemas.
-    apply good_bind; [apply good_lift, pure_fold_out; intros; apply pure_create_table|]. intros d1.
-    apply good_bind; [apply good_read_u32|]. intros ic.
-    apply good_bind; [apply good_loop; assumption|]. intros specs.
-    apply good_bind.
-    { apply good_lift, pure_fold_out. intros d [[[n tn] u] cols]. apply pure_create_index. }
+    apply good_lt_bind; [apply gofC, good_read_u32|]. intros tc.
+    apply good_lt_bind; [apply gofC, good_loop; assumption|]. intros tschemas.
+    apply good_lt_bind; [apply gofC, good_lift, pure_fold_out; intros; apply pure_create_table|]. intros d1.
+    apply good_lt_bind; [apply gofC, good_read_u32|]. intros ic.
+    apply good_lt_bind; [apply gofC, good_loop; assumption|]. intros specs.
+    apply good_lt_bind.
+    { apply gofC, good_lift, pure_fold_out. intros d [[[n tn] u] cols]. apply pure_create_index. }
     intros d2.
-    apply good_bind; [apply good_read_u32|]. intros trc.
-    apply good_bind.
-    { apply good_iter.
-      - intros l. apply good_bind; [exact Gr|]. intros n. apply good_lift, pure_add_unique.
-      - intros l. apply sbl; [exact Sr|]. intros n. apply good_lift, pure_add_unique. }
-    intros trigs. apply good_ret.
+    apply good_lt_bind; [apply gofC, good_read_u32|]. intros trc.
+    apply good_lt_bind.
+    { apply good_lt_iter.
+      - intros l. apply good_lt_bind; [exact Gr|]. intros n. apply gofC, good_lift, pure_add_unique.
+      - intros l. apply (strict_lt_bind_l (pT E) False allowS); [exact Gr | exact Sr |].
+        intros n. apply gofC, good_lift, pure_add_unique. }
+    intros trigs. apply gofC, good_ret.
   Qed.
 
   Lemma good_read_header : goodC read_header.
@@ -720,19 +732,40 @@ Definition catalog_phase (E : env) : dec db := read_header ;;; read_catalog E.
 Lemma load_split E bs : load_binary E bs = bind (catalog_phase E) (read_data E) bs.
 Proof. unfold load_binary, catalog_phase. symmetry. apply bind_assoc. Qed.
 
-Theorem catalog_phase_good E : good (pT E) False True (catalog_phase E).
-Proof. unfold catalog_phase. apply good_bind; [apply good_read_header|]. intros _. apply good_read_catalog. Qed.
-
-Theorem load_good E : good (pData E) True True (load_binary E).
+(** the catalog phase on inputs shorter than [F]: never [Hang]; panics only from temporal parsers;
+    [StackOverflow] only if it is tolerated or the stack is too small for [F] nesting levels *)
+Theorem catalog_phase_good_lt E allowS F :
+  allowS \/ F <= stack_limit E -> good_lt (pT E) False allowS F (catalog_phase E).
 Proof.
-  intros bs.
-  assert (G : good_at (pData E) True True (bind (catalog_phase E) (read_data E)) bs).
+  intros HF. unfold catalog_phase. apply good_lt_bind; [apply good_lt_of_good, good_read_header|].
+  intros _. apply good_read_catalog. exact HF.
+Qed.
+
+Theorem catalog_phase_good E : good (pT E) False True (catalog_phase E).
+Proof. apply good_of_good_lt. intros F. apply catalog_phase_good_lt. left. exact I. Qed.
+
+Lemma load_good_lt E allowS F :
+  allowS \/ F <= stack_limit E -> good_lt (pData E) True allowS F (load_binary E).
+Proof.
+  intros HF bs Hb.
+  assert (G : good_at (pData E) True allowS (bind (catalog_phase E) (read_data E)) bs).
   { apply good_at_bind.
-    - eapply good_weaken; [| | |apply catalog_phase_good]; [|tauto|tauto].
-      intros p Hp. right. right. exact Hp.
+    - pose proof (catalog_phase_good_lt E allowS F HF bs Hb) as [g1 g2 g3 g4]. split; auto.
+      intros t o Ho. specialize (g4 t o Ho). destruct o; cbn in *; auto. right. right. exact g4.
     - intros t d r _. eapply good_weaken; [| | |apply good_read_data]; [|tauto|tauto].
       intros p [Hp|[[->| ->] _]]; [right; right; exact Hp | left; reflexivity | right; left; reflexivity]. }
   destruct G as [g1 g2 g3 g4]. split; intros *; rewrite load_split; [apply g1 | apply g2 | apply g3 | apply g4].
+Qed.
+
+Theorem load_good E : good (pData E) True True (load_binary E).
+Proof. apply good_of_good_lt. intros F. apply load_good_lt. left. exact I. Qed.
+
+(** a file shorter than the nesting depth the stack can hold cannot overflow it *)
+Theorem no_stack_overflow_when_shallow E bs : blen bs < stack_limit E -> load_result E bs <> StackOverflow.
+Proof.
+  intros Hb Hr. unfold load_result in Hr. destruct (load_binary E bs) as [t o] eqn:El. cbn [snd] in Hr. subst o.
+  assert (HF : False \/ blen bs + 1 <= stack_limit E) by (right; lia).
+  exact (g_tol _ _ _ _ _ (load_good_lt E False (blen bs + 1) HF bs ltac:(lia)) _ _ El).
 Qed.
 
 (** no byte string makes the loop fuel of the model run out: every count-driven loop of the loader
@@ -942,3 +975,165 @@ Proof.
     destruct (Z.ltb_spec bin_version v); [reflexivity | lia]. }
   unfold load_binary. rewrite (bind_run _ _ _ _ _ Hh). reflexivity.
 Qed.
+
+(** * stack overflow is reachable for EVERY stack limit with a file of proportional size *)
+Lemma snd_bind_ok {A B} (m : dec A) (f : A -> dec B) bs t1 a r :
+  m bs = (t1, Ok a r) -> snd (bind m f bs) = snd (f a r).
+Proof. intros H. rewrite (bind_ok _ _ _ _ _ _ H). destruct (f a r). reflexivity. Qed.
+
+Lemma snd_bind_stop {A B} (m : dec A) (f : A -> dec B) bs t1 o :
+  m bs = (t1, o) -> is_ok o = false -> snd (bind m f bs) = cast_out o.
+Proof. intros H Hn. rewrite (bind_run _ _ _ _ _ H). destruct o; try reflexivity. discriminate. Qed.
+
+(** [k] nested unary operators: tag UnaryOp, operator Not *)
+Fixpoint nest (k : nat) : bytes :=
+  match k with O => [] | S k' => bin_expr_UnaryOp :: 0 :: nest k' end.
+
+Lemma nest_length k : length (nest k) = (2 * k)%nat.
+Proof. induction k; cbn [nest length]; lia. Qed.
+
+Lemma nest_overflows E : forall k fuel depth rest,
+  (k <= fuel)%nat -> stack_limit E < depth + Z.of_nat k ->
+  snd (read_expr E fuel depth (nest k ++ rest)) = StackOverflow.
+Proof.
+  induction k as [|k IH]; intros fuel depth rest Hf Hd.
+  - destruct fuel; cbn [read_expr]; destruct (Z.ltb_spec (stack_limit E) depth); try reflexivity; lia.
+  - destruct fuel as [|f]; [lia|]. cbn [read_expr].
+    destruct (Z.ltb_spec (stack_limit E) depth); [reflexivity|].
+    cbn [nest app].
+    rewrite (snd_bind_ok _ _ _ _ _ _ (read_u8_cons bin_expr_UnaryOp (0 :: nest k ++ rest))).
+    change (bin_expr_UnaryOp =? bin_expr_Literal) with false.
+    change (bin_expr_UnaryOp =? bin_expr_ColumnRef) with false.
+    change (bin_expr_UnaryOp =? bin_expr_BinaryOp) with false.
+    change (bin_expr_UnaryOp =? bin_expr_UnaryOp) with true. cbv iota.
+    assert (Hen : read_enum 11 bin_unop_tags (0 :: nest k ++ rest) = ([], Ok tt (nest k ++ rest))).
+    { unfold read_enum. rewrite (bind_ok_nil _ _ _ _ _ (read_u8_cons 0 (nest k ++ rest))). reflexivity. }
+    rewrite (snd_bind_ok _ _ _ _ _ _ Hen).
+    apply IH; lia.
+Qed.
+
+(** the file: empty catalog, one trigger (empty names, BEFORE INSERT FOR EACH ROW) with a WHEN
+    expression made of [k] nested NOTs *)
+Definition overflow_file (k : nat) : bytes :=
+  write_header ++ w_u32 0 ++ w_u32 0 ++ w_u32 0 ++ w_u32 0 ++ w_u32 1
+  ++ w_string [] ++ w_string [] ++ [0] ++ [0] ++ [0] ++ w_bool true ++ nest k.
+
+Lemma loop_zero {A} (item : dec A) bs : loop 0 item bs = ([], Ok [] bs).
+Proof. reflexivity. Qed.
+Lemma iter_zero {St} (body : St -> dec St) s bs : iter 0 body s bs = ([], Ok s bs).
+Proof. reflexivity. Qed.
+
+Lemma read_header_ok rest : read_header (write_header ++ rest) = ([], Ok tt rest).
+Proof.
+  unfold read_header.
+  change (nth 0 bin_header_read_sizes 0) with 5. change (nth 1 bin_header_read_sizes 0) with 1.
+  change (nth 2 bin_header_read_sizes 0) with 1. change (nth 3 bin_header_read_sizes 0) with 9.
+  set (r3 := [0; 0; 0; 0; 0; 0; 0; 0; 0] ++ rest).
+  set (r2 := [0] ++ r3). set (r1 := [bin_version] ++ r2).
+  change (write_header ++ rest) with (bin_magic ++ r1).
+  assert (E1 : read_exact 5 (bin_magic ++ r1) = ([], Ok bin_magic r1))
+    by (apply (read_exact_app_n 5 bin_magic); reflexivity).
+  rewrite (bind_ok_nil _ _ _ _ _ E1).
+  rewrite bytes_eqb_refl. change (negb true) with false. cbv iota.
+  assert (E2 : read_exact 1 r1 = ([], Ok [bin_version] r2))
+    by (apply (read_exact_app_n 1 [bin_version]); reflexivity).
+  rewrite (bind_ok_nil _ _ _ _ _ E2).
+  change (version_rejected (le_val [bin_version])) with false. cbv iota.
+  assert (E3 : skip (read_exact 1) r2 = ([], Ok tt r3)).
+  { unfold skip. assert (E : read_exact 1 r2 = ([], Ok [0] r3)) by (apply (read_exact_app_n 1 [0]); reflexivity).
+    rewrite (bind_ok_nil _ _ _ _ _ E). reflexivity. }
+  rewrite (bind_ok_nil _ _ _ _ _ E3).
+  unfold skip.
+  assert (E4 : read_exact 9 r3 = ([], Ok [0; 0; 0; 0; 0; 0; 0; 0; 0] rest))
+    by (apply (read_exact_app_n 9 [0; 0; 0; 0; 0; 0; 0; 0; 0]); reflexivity).
+  rewrite (bind_ok_nil _ _ _ _ _ E4). reflexivity.
+Qed.
+
+Lemma skip_ok {A} (m : dec A) bs t a r : m bs = (t, Ok a r) -> skip m bs = (t ++ [], Ok tt r).
+Proof. intros H. unfold skip. rewrite (bind_ok _ _ _ _ _ _ H). reflexivity. Qed.
+
+Lemma read_enum_cons what tags b rest :
+  existsb (Z.eqb b) tags = true -> read_enum what tags (b :: rest) = ([], Ok tt rest).
+Proof. intros H. unfold read_enum. rewrite (bind_ok_nil _ _ _ _ _ (read_u8_cons b rest)), H. reflexivity. Qed.
+
+Lemma lift_ok {A} (a : A) r bs : lift (Ok a r) bs = ([], Ok a bs).
+Proof. reflexivity. Qed.
+
+Lemma empty_string_read rest : read_string (w_string [] ++ rest) = ([Alloc 0], Ok [] rest).
+Proof. apply (string_roundtrip [] rest); [reflexivity | vm_compute; reflexivity]. Qed.
+
+Lemma u32_range_0 : 0 <= 0 < 2 ^ 32. Proof. split; [lia | reflexivity]. Qed.
+Lemma u32_range_1 : 0 <= 1 < 2 ^ 32. Proof. split; [lia | reflexivity]. Qed.
+
+Lemma trigger_overflows E k rest :
+  stack_limit E < 1 + Z.of_nat k ->
+  snd (read_trigger E (w_string [] ++ w_string [] ++ [0] ++ [0] ++ [0] ++ w_bool true ++ nest k ++ rest))
+  = StackOverflow.
+Proof.
+  intros Hk. unfold read_trigger.
+  rewrite (snd_bind_ok _ _ _ _ _ _ (empty_string_read _)).
+  rewrite (snd_bind_ok _ _ _ _ _ _ (skip_ok _ _ _ _ _ (empty_string_read _))).
+  cbn [app].
+  rewrite (snd_bind_ok _ _ _ _ _ _ (read_enum_cons 1 bin_timing_tags 0 _ eq_refl)).
+  assert (Eev : (ev <- read_u8 ;;
+                 if ev =? 3 then (cn <- read_u32 ;; skip (loop cn read_string))
+                 else if existsb (Z.eqb ev) bin_event_tags then ret tt
+                 else fail (EEnum 2 ev)) (0 :: 0 :: w_bool true ++ nest k ++ rest)
+                = ([], Ok tt (0 :: w_bool true ++ nest k ++ rest))).
+  { rewrite (bind_ok_nil _ _ _ _ _ (read_u8_cons 0 _)). reflexivity. }
+  rewrite (snd_bind_ok _ _ _ _ _ _ Eev).
+  rewrite (snd_bind_ok _ _ _ _ _ _ (read_enum_cons 3 bin_granularity_tags 0 _ eq_refl)).
+  (* opt (read_expression E) on  true :: nest k ++ rest *)
+  assert (Eopt : snd (opt (read_expression E) (w_bool true ++ nest k ++ rest)) = StackOverflow).
+  { unfold opt. rewrite (snd_bind_ok _ _ _ _ _ _ (bool_roundtrip true _)). unfold when_, read_expression.
+    apply nest_overflows; [|exact Hk].
+    rewrite app_length, nest_length. lia. }
+  destruct (opt (read_expression E) (w_bool true ++ nest k ++ rest)) as [t o] eqn:Eo. cbn [snd] in Eopt. subst o.
+  rewrite (snd_bind_stop _ _ _ _ _ Eo eq_refl). reflexivity.
+Qed.
+
+Theorem stack_overflow_reachable E :
+  0 <= stack_limit E ->
+  let k := Z.to_nat (stack_limit E) in
+  load_result E (overflow_file k) = StackOverflow /\ blen (overflow_file k) = 2 * stack_limit E + 48.
+Proof.
+  intros Hl k. split.
+  - unfold load_result, load_binary, overflow_file.
+    rewrite (snd_bind_ok _ _ _ _ _ _ (read_header_ok _)).
+    assert (Hc : snd (read_catalog E (w_u32 0 ++ w_u32 0 ++ w_u32 0 ++ w_u32 0 ++ w_u32 1
+                   ++ w_string [] ++ w_string [] ++ [0] ++ [0] ++ [0] ++ w_bool true ++ nest k)) = StackOverflow).
+    { unfold read_catalog.
+      rewrite (snd_bind_ok _ _ _ _ _ _ (u32_roundtrip 0 _ u32_range_0)).
+      rewrite (snd_bind_ok _ _ _ _ _ _ (iter_zero _ _ _)).
+      rewrite (snd_bind_ok _ _ _ _ _ _ (u32_roundtrip 0 _ u32_range_0)).
+      rewrite (snd_bind_ok _ _ _ _ _ _ (iter_zero _ _ _)).
+      rewrite (snd_bind_ok _ _ _ _ _ _ (u32_roundtrip 0 _ u32_range_0)).
+      rewrite (snd_bind_ok _ _ _ _ _ _ (loop_zero _ _)).
+      cbn [fold_out]. rewrite (snd_bind_ok _ _ _ _ _ _ (lift_ok _ _ _)).
+      rewrite (snd_bind_ok _ _ _ _ _ _ (u32_roundtrip 0 _ u32_range_0)).
+      rewrite (snd_bind_ok _ _ _ _ _ _ (loop_zero _ _)).
+      cbn [fold_out]. rewrite (snd_bind_ok _ _ _ _ _ _ (lift_ok _ _ _)).
+      rewrite (snd_bind_ok _ _ _ _ _ _ (u32_roundtrip 1 _ u32_range_1)).
+      (* the trigger loop: one iteration *)
+      match goal with |- snd (bind (iter 1 ?body []) _ ?bs) = _ =>
+        assert (Hit : snd (iter 1 body [] bs) = StackOverflow) end.
+      { unfold iter. cbn [iter_fuel]. change (1 <=? 0) with false. cbv iota.
+        pose proof (trigger_overflows E k [] ltac:(unfold k; rewrite Z2Nat.id by lia; lia)) as Ht.
+        rewrite app_nil_r in Ht.
+        destruct (read_trigger E (w_string [] ++ w_string [] ++ [0] ++ [0] ++ [0] ++ w_bool true ++ nest k))
+          as [tt0 ot] eqn:Etr. cbn [snd] in Ht. subst ot.
+        match goal with |- snd (bind (bind ?m ?f) ?g ?b) = _ => rewrite (bind_assoc m f g b) end.
+        rewrite (snd_bind_stop _ _ _ _ _ Etr eq_refl). reflexivity. }
+      match goal with |- snd (bind ?m ?f ?bs) = _ => destruct (m bs) as [ti oi] eqn:Ei end.
+      cbn [snd] in Hit. subst oi. rewrite (snd_bind_stop _ _ _ _ _ Ei eq_refl). reflexivity. }
+    match goal with |- snd (bind ?m ?f ?bs) = _ => destruct (m bs) as [tc oc] eqn:Ec end.
+    cbn [snd] in Hc. subst oc. rewrite (snd_bind_stop _ _ _ _ _ Ec eq_refl). reflexivity.
+  - unfold overflow_file. rewrite !blen_app. unfold blen at 13. rewrite nest_length.
+    change (blen write_header) with 16. change (blen (w_u32 0)) with 4. change (blen (w_u32 1)) with 4.
+    change (blen (w_string [])) with 4. change (blen [0]) with 1. change (blen (w_bool true)) with 1.
+    unfold k. rewrite Nat2Z.inj_mul, Z2Nat.id by lia. lia.
+Qed.
+
+Example stack_overflow_reachable_example :
+  load_result (canon_env 3 65536) (overflow_file 3) = StackOverflow /\ blen (overflow_file 3) = 54.
+Proof. exact (stack_overflow_reachable (canon_env 3 65536) ltac:(cbn; lia)). Qed.
